@@ -64,6 +64,7 @@ def _mk(name,bits,signed=False,isfloat=False): return NbMeta(name,(NPScalar,),di
 uint8=_mk("uint8",8); uint16=_mk("uint16",16); uint32=_mk("uint32",32); uint64=_mk("uint64",64)
 int8=_mk("int8",8,True); int32=_mk("int32",32,True); int64=_mk("int64",64,True)
 float32=_mk("float32",32,True,True); float64=_mk("float64",64,True,True)
+bool_=_mk("bool_",8)
 
 def _ai(x):
     """int-like value without forcing realisation of symbolic ints"""
@@ -121,7 +122,11 @@ class SArr:
     def _norm(self, idx):
         idx=idx if isinstance(idx,tuple) else (idx,)
         off=self.off; shape=[]; strides=[]
-        for d,ix in enumerate(idx):
+        d=-1
+        for ix in idx:
+            if ix is None:               # np.newaxis: a broadcast axis of length 1
+                shape.append(1); strides.append(0); continue
+            d+=1
             if isinstance(ix,slice):
                 n=self.shape[d]
                 s0=0 if ix.start is None else _ai(ix.start); e0=n if ix.stop is None else _ai(ix.stop)
@@ -135,7 +140,7 @@ class SArr:
                 if i<0: i+=self.shape[d]
                 if not 0<=i<self.shape[d]: raise IndexError("index out of bounds")
                 off+=i*self.strides[d]
-        for d in range(len(idx), len(self.shape)): shape.append(self.shape[d]); strides.append(self.strides[d])
+        for d in range(d+1, len(self.shape)): shape.append(self.shape[d]); strides.append(self.strides[d])
         return off,shape,strides
     def __getitem__(self, idx):
         off,shape,strides=self._norm(idx)
@@ -163,6 +168,15 @@ class SArr:
     def __eq__(self, o):
         if isinstance(o,SArr): return [self.data[a]==o.data[b] for a,b in zip(self._offsets(), o._offsets())]
         return [self.data[a]==o for a in self._offsets()]
+    def _cmp(self, o, f):
+        if isinstance(o,SArr): vals=[f(self.data[a], o.data[b]) for a,b in zip(self._offsets(), o._offsets())]
+        else: vals=[f(self.data[a], _ai(o)) for a in self._offsets()]
+        return SArr(self.shape, bool_, vals)
+    def __gt__(self, o): return self._cmp(o, lambda x,y: x>y)
+    def __ge__(self, o): return self._cmp(o, lambda x,y: x>=y)
+    def __lt__(self, o): return self._cmp(o, lambda x,y: x<y)
+    def __le__(self, o): return self._cmp(o, lambda x,y: x<=y)
+    def __ne__(self, o): return self._cmp(o, lambda x,y: x!=y)
     def reshape(self,*shape):
         shape=shape[0] if len(shape)==1 and isinstance(shape[0],(tuple,list)) else shape
         v=SArr(tuple(_ai(s) for s in shape), self.dtype, self.data); return v
@@ -218,7 +232,7 @@ for c in (uint8,uint16,uint32,uint64,int8,int32,int64,float32,float64): setattr(
 numba.types=_Types(); numba.njit=njit; numba.prange=range
 numpy=_pytypes.ModuleType("numpy")
 for c in (uint8,uint16,uint32,uint64,int8,int32,int64,float32,float64): setattr(numpy,c.__name__,c)
-numpy.generic=NPScalar; numpy.ndarray=SArr
+numpy.generic=NPScalar; numpy.ndarray=SArr; numpy.newaxis=None; numpy.bool_=bool_
 numpy.zeros=lambda shape,dtype=float64: SArr(shape,dtype)
 def _frombuffer(buf,dtype):
     if isinstance(buf,(bytes,bytearray)): return SArr((len(buf),),dtype,list(buf))
@@ -226,7 +240,14 @@ def _frombuffer(buf,dtype):
 numpy.frombuffer=_frombuffer
 numpy.all=lambda x: all(x) if isinstance(x,list) else all(x.tolist())
 numpy.array=lambda data,dtype=None: data
-def _copyto(dst,src): dst[tuple(slice(None) for _ in dst.shape)]=src
+def _copyto(dst,src,where=None):
+    if where is None:
+        dst[tuple(slice(None) for _ in dst.shape)]=src; return
+    # masked copy with numpy broadcasting of the mask's length-1 axes
+    for ix in itertools.product(*[range(n) for n in dst.shape]):
+        wix=tuple(0 if where.shape[d]==1 else ix[d] for d in range(len(where.shape))) if isinstance(where,SArr) else None
+        w=where[wix] if wix is not None else where
+        if w: dst[ix]=src[ix] if isinstance(src,SArr) else src
 numpy.copyto=_copyto
 def install():
     sys.modules["numba"]=numba; sys.modules["numpy"]=numpy
